@@ -106,6 +106,45 @@ func c15(r *report.Run) {
 		}
 		return runs, outs
 	})
+	// a few shapes outside the node budgets (literal arrays with signed literals, chains)
+	rawOrder := int64(1) << 42
+	for _, src := range []string{"I in [-(-1), 5]", "I in [- -1, 3]", "I not in [-(+(-1))]", "I in [+1, -(-(-1))]", "I in [1, -1]", "J in [-1, -(-2)]", `S in ["a", "a" + "b"]`,
+		"F + J / 2", "F * (I / 2) + J", "I64 % 3 == 1", "I8 % 2 == 1", "F32 + 1 + 1", "MI == 1 or MI == 0", `MS == "a"`} {
+		rawOrder++
+		type res struct{ mode, norm string }
+		var oks []res
+		for vi := 0; vi < 3; vi++ {
+			oks = oks[:0]
+			for _, m := range c15Modes {
+				mkEnv := func() *henv.Env {
+					e := henv.MakeFull(henv.Val{})
+					e.I, e.J = []int{1, 2, -1}[vi], []int{2, -2, 3}[vi]
+					return e
+				}
+				var got interface{}
+				var err error
+				if m.Env == "eval" {
+					got, err = lib.Eval(src, m.RunEnv(mkEnv(), nil))
+				} else {
+					p, cerr := lib.Compile(src, m)
+					if cerr != nil {
+						continue
+					}
+					got, err = lib.Run(p, m.RunEnv(mkEnv(), nil))
+				}
+				if err == nil {
+					oks = append(oks, res{m.String(), henv.Norm(got)})
+				}
+			}
+			for k := 1; k < len(oks); k++ {
+				if oks[k].norm != oks[0].norm {
+					r.Report(report.Violation{Sub: oks[0].mode + " vs " + oks[k].mode, Kind: "value", Witness: src, Order: rawOrder,
+						Detail: map[string]interface{}{"source": src, "what": oks[0].mode + ": " + oks[0].norm + "; " + oks[k].mode + ": " + oks[k].norm}})
+					break
+				}
+			}
+		}
+	}
 	r.Assume("differential oracle between compile/eval variants; only variants that succeed are compared (the property allows a variant to reject or fail)")
 	r.Assume("interface{}-typed members are used only with struct environments (a map environment types its members from sample values)")
 }
